@@ -110,6 +110,20 @@ func VerifC19ServerGates() {
 	case 2:
 		expect = vNondetBool("programmatic")
 		cfg.Telemetry.Enabled = expect
+		// the reporting interval is the default, or unset / non-positive (a
+		// Config that was not built from the defaults, "interval.seconds: 0")
+		// (only with telemetry off: switched on with a non-positive interval the
+		// collector's ticker panics at start-up - a start-up crash, not a
+		// question of this property, recorded in DESIGN.md)
+		if !expect {
+			switch vChoose(3) {
+			case 1:
+				cfg.Telemetry.IntervalSeconds = 0
+				vCover("interval-unset")
+			case 2:
+				cfg.Telemetry.IntervalSeconds = -5
+			}
+		}
 		vCover("programmatic")
 	}
 	vAssert(cfg.Telemetry.Enabled == expect, "the configuration's telemetry switch is the value of the documented key telemetry.enabled (or the default)")
